@@ -83,6 +83,21 @@ let () =
     let q = qc_of_string in
     match t with
     | ["CASE"; i] -> reset (); dtx := []; id := i
+    | ["RUN"; "fmt"; kind; arg] ->
+        (* one display function applied to one value; result as hex text *)
+        let out = (match kind with
+          | "gbp" -> string_of_text (format_gbp (qc_of_string arg))
+          | "jsonmoney" -> string_of_qc (json_money (qc_of_string arg))
+          | "trim" -> string_of_text (trim_decimal (text_of_string arg))
+          | "taxyear" -> string_of_text (format_tax_year (z_of_string arg))
+          | "date" -> (match String.split_on_char '-' arg with
+                       | [y; m; d] -> string_of_text (format_date { dy = z_of_string y; dm = z_of_string m; dd = z_of_string d })
+                       | _ -> failwith "date")
+          | "readgbp" -> (match read_pence (text_of_string (unhex arg)) with
+                          | Some (neg, p) -> (if neg then "-" else "") ^ string_of_z (match p with N0 -> Z0 | Npos q -> Zpos q)
+                          | None -> "none")
+          | _ -> failwith ("fmt kind " ^ kind)) in
+        Printf.printf "{\"id\":%s,\"out_hex\":%s}\n" (js !id) (js (hex out))
     | "CUR" :: codes -> List.iter (fun c -> Hashtbl.replace currencies c ()) codes
     | ["RUN"; "dsl_parse"; h] ->
         (match parse valid_cur (text_of_string (unhex (String.sub h 1 (String.length h - 1)))) with
